@@ -58,6 +58,7 @@ def main():
                     if rc == 0:
                         tmpd = '/dev/shm/seedrun-' + sid
                         os.makedirs(tmpd, exist_ok=True)
+                        shutil.copy('/verif/known_findings.txt', tmpd)
                         rc2, out2 = sh(['/verif/bin/govc', 'check', prop, '--no-evidence'], '/verif', env=dict(ENV, GOVC_VERIF_DIR=tmpd))
                         viol = [l for l in out2.splitlines() if l.startswith('VIOLATION')]
                         det = {'check_cmd': 'bin/govc check %s --tier quick' % prop, 'exit': rc2, 'violations': viol[:8], 'detected': rc2 == 1 and bool(viol),
